@@ -28,12 +28,13 @@ Part 3: `Palette` classes (static table `ClassDef`), registration of class defau
 
 Part 4: histories (`Op`, `stepOp`, `run`).  Part 5: the declarative reading of the statement (`Resolves`,
 `resolveSpec`, `Acyclic`, `SpecColor`, first-registration-wins on description strings) — specification, not
-executed by the driver.  Part 6: the configuration as the global one and synced palettes (`GWorld`,
+executed by the driver.  Parts 6 and 7 are in `Model/ColorsConfGlobal.lean`.  Part 6: the configuration as the global one and synced palettes (`GWorld`,
 `addWith`, `registerClassG`, `syncList`, `stepG`, `runAll`); the driver executes `newConf` and `stepG`
-(`C14.global_off_same`: without `setGlobal`/`syn`/`sget` this is `run`).
+(`C14.global_off_same`: without `setGlobal`/`syn`/`sget` this is `run`).  Part 7: several configurations taking
+turns as the global one (`MWorld`, `stepM`, `runM`): what the driver executes; every step is a `stepG` on a view.
 
-Not modelled: a second configuration (it only appears as "another global configuration" before `setGlobal`,
-whose colours are never read), `GlobalPalette`, `CompoundPalette` sub-palettes, the state left behind by a
+Not modelled: the configuration that is the global one before the first `setGlobal` of a case (its colours are
+never read), `GlobalPalette`, `CompoundPalette` sub-palettes, the state left behind by a
 registration that raised (the protocol stops using the configuration then).
 
 A formatter is represented by its prefix: `ColorFmt.__call__` renders `prefix ++ text ++ suffix` and the
@@ -612,155 +613,6 @@ def runOps (classes : List ClassDef) : World → List Op → Except Err World
 def run (classes : List ClassDef) (noColor : Bool) (cfg : Cfg) (ops : List Op) : Except Err World :=
   match newConf noColor cfg with
   | .ok c => runOps classes ⟨c, []⟩ ops
-  | .error x => .error x
-
-/-! ## Part 6: the configuration as *the global one*, synced palettes
-
-`ak.color` keeps two module variables: `_GLOBAL_COLORS_CONF` and `_GSYNCED_PALETTES` (class -> the one
-synced palette of that class).  A registration that modifies the global configuration ends with
-`set_global_colors_config(self)`, which makes every synced palette register its class in the configuration
-(possibly modifying it again, hence nested re-syncs) and re-read its accessors.  One case of the protocol
-sees one configuration; `GWorld` adds whether it is the global one and the synced palettes created in the
-case, as snapshots of the current values of their accessor attributes. -/
-
-structure GWorld where
-  w : World
-  isGlobal : Bool
-  synced : List (Nat × Snap)
-
-/-- `for palette in _GSYNCED_PALETTES.values(): palette._sync_with_config(conf)`; `regC` is
-`register_in_colors_conf` -/
-def syncList (classes : List ClassDef) (regC : GWorld → Nat → Except Err GWorld) :
-    GWorld → List Nat → Except Err GWorld
-  | g, [] => .ok g
-  | g, k :: ks =>
-    match regC g k with
-    | .error x => .error x
-    | .ok g1 =>
-      match classes[k]? with
-      | none => .error .keyError
-      | some cd =>
-        syncList classes regC { g1 with synced := cacheSet g1.synced k (snapOf g1.w.conf cd.accessors) } ks
-
-/-- `add_new_items` including its last step: `if any_modifications and self is _GLOBAL_COLORS_CONF:
-set_global_colors_config(self)`.  Something was modified (an item inserted or resolved) exactly when the
-map differs from the one before. -/
-def addWith (sync : GWorld → Except Err GWorld) (g : GWorld) (items : List (Id × Str)) : Except Err GWorld :=
-  match addNewItems g.w.conf items with
-  | .error x => .error x
-  | .ok c' =>
-    let g' : GWorld := { g with w := { g.w with conf := c' } }
-    if g.isGlobal && decide (c'.map ≠ g.w.conf.map) then sync g' else .ok g'
-
-/-- `register_color_conf_component` on a possibly global configuration -/
-def regCompWith (sync : GWorld → Except Err GWorld) (g : GWorld) (cfg : Cfg) (src : Src) : Except Err GWorld :=
-  if src ∈ g.w.conf.sources then .error .assertion
-  else addWith sync { g with w := { g.w with conf := { g.w.conf with sources := src :: g.w.conf.sources } } }
-    (flatten cfg)
-
-/-- `Palette.register_in_colors_conf` on a possibly global configuration; a modification re-syncs every
-synced palette, which registers classes again one level of fuel lower -/
-def registerClassG (classes : List ClassDef) : Nat → GWorld → Nat → Except Err GWorld
-  | 0, _, _ => .error .outOfFuel
-  | fuel + 1, g, k =>
-    if Src.cls k ∈ g.w.conf.sources then .ok g else
-    match classes[k]? with
-    | none => .error .keyError
-    | some cd =>
-      match regParents (registerClassG classes fuel) g cd.parents with
-      | .error x => .error x
-      | .ok g1 =>
-        match cd.defaults with
-        | none => .ok g1
-        | some cfg =>
-          regCompWith (fun g' => syncList classes (registerClassG classes fuel) g' (g'.synced.map (·.1)))
-            g1 cfg (.cls k)
-
-/-- `set_global_colors_config(conf)`'s loop over the synced palettes -/
-def syncTop (classes : List ClassDef) (g : GWorld) : Except Err GWorld :=
-  syncList classes (registerClassG classes (gFuel classes)) g (g.synced.map (·.1))
-
-/-- `PaletteClass(colors_conf, no_color)` on a possibly global configuration (as `getPalette`) -/
-def getPaletteG (classes : List ClassDef) (g : GWorld) (k : Nat) (noColor : Bool) :
-    Except Err (GWorld × Snap) :=
-  match classes[k]? with
-  | none => .error .keyError
-  | some cd =>
-    if noColor then
-      match registerClassG classes (gFuel classes) g k with
-      | .error x => .error x
-      | .ok g1 =>
-        match cacheGet g1.w.ncCache k with
-        | some s => .ok (g1, s)
-        | none =>
-          let s := plainSnap cd.accessors
-          .ok ({ g1 with w := { g1.w with ncCache := cacheSet g1.w.ncCache k s } }, s)
-    else
-      match cacheGet g.w.conf.cache k with
-      | some s => .ok (g, s)
-      | none =>
-        match registerClassG classes (gFuel classes) g k with
-        | .error x => .error x
-        | .ok g1 =>
-          let s := snapOf g1.w.conf cd.accessors
-          .ok ({ g1 with w := { g1.w with conf := { g1.w.conf with cache := cacheSet g1.w.conf.cache k s } } }, s)
-
-inductive GOp where
-  | op (o : Op)             -- an operation on the configuration (Part 4)
-  | setGlobal               -- `set_global_colors_config(conf)`
-  | syn (k : Nat)           -- `P_k(synced=True)` (the configuration must be the global one)
-  | sget (k : Nat)          -- read the accessor attributes of the synced palette of class `k`
-
-def stepG (classes : List ClassDef) (g : GWorld) : GOp → Except Err (GWorld × Option Snap)
-  | .op (.add items) =>
-    match addWith (syncTop classes) g items with
-    | .ok g' => .ok (g', none)
-    | .error x => .error x
-  | .op (.reg name cfg) =>
-    match regCompWith (syncTop classes) g cfg (.name name) with
-    | .ok g' => .ok (g', none)
-    | .error x => .error x
-  | .op (.pal k nc) =>
-    match getPaletteG classes g k nc with
-    | .ok (g', s) => .ok (g', some s)
-    | .error x => .error x
-  | .op (.get _) => .ok (g, none)
-  | .setGlobal =>
-    match syncTop classes { g with isGlobal := true } with
-    | .ok g' => .ok (g', none)
-    | .error x => .error x
-  | .syn k =>
-    match cacheGet g.synced k with
-    | some s => .ok (g, some s)
-    | none =>
-      match classes[k]? with
-      | none => .error .keyError
-      | some cd =>
-        -- while another configuration is the global one the palette is built from that one: its attributes are
-        -- not known to this model (placeholder; never read: `sget` is answered only once `isGlobal`)
-        if !g.isGlobal then .ok ({ g with synced := g.synced ++ [(k, plainSnap cd.accessors)] }, none) else
-        match registerClassG classes (gFuel classes) g k with
-        | .error x => .error x
-        | .ok g1 =>
-          let s := snapOf g1.w.conf cd.accessors
-          .ok ({ g1 with synced := g1.synced ++ [(k, s)] }, some s)
-  | .sget k =>
-    match cacheGet g.synced k with
-    | some s => .ok (g, some s)
-    | none => .error .keyError
-
-def runG (classes : List ClassDef) : GWorld → List GOp → Except Err GWorld
-  | g, [] => .ok g
-  | g, op :: ops =>
-    match stepG classes g op with
-    | .ok (g', _) => runG classes g' ops
-    | .error x => .error x
-
-/-- a whole case of the protocol: the constructor, then operations on the configuration and on the module
-state (`run` of part 4 is the special case without `setGlobal`/`syn`/`sget`: `C14.global_off_same`) -/
-def runAll (classes : List ClassDef) (noColor : Bool) (cfg : Cfg) (ops : List GOp) : Except Err GWorld :=
-  match newConf noColor cfg with
-  | .ok c => runG classes ⟨⟨c, []⟩, false, []⟩ ops
   | .error x => .error x
 
 /-! ## Part 5: the declarative reading of the statement -/
